@@ -57,6 +57,54 @@ fn sub_str(rng: &mut Rng, s: &str) -> String {
     }
 }
 
+/// the whole sweep summarised (Run/C10.v obs_C10m)
+fn obs_m(o: &Ontology, probes: &[u32]) -> V {
+    let (mut found, mut wrong, mut sum, mut min, mut max) = (0u64, 0u64, 0u64, u64::MAX, 0u64);
+    for id in 0..SWEEP_END {
+        if let Some(t) = o.hpo(HpoTermId::from(id)) {
+            found += 1;
+            if t.id().as_u32() != id || t.name() != "t" {
+                wrong += 1;
+            }
+            sum += u64::from(id);
+            min = min.min(u64::from(id));
+            max = max.max(u64::from(id));
+        }
+    }
+    if found == 0 {
+        min = 0;
+    }
+    let mut probed = vec![];
+    for id in probes {
+        if let Some(t) = o.hpo(HpoTermId::from(*id)) {
+            probed.push(V::T(vec![n(*id), n(t.id().as_u32())]));
+        }
+    }
+    let itn = o.iter().count();
+    let its: u64 = o.iter().map(|t| u64::from(t.id().as_u32())).sum();
+    let n64 = |x: u64| V::N(u128::from(x));
+    V::T(vec![nu(o.len()), nu(itn), n64(its), n64(found), n64(wrong), n64(sum), n64(min), n64(max), V::L(probed)])
+}
+
+/// more terms than a 16-bit slot index can address: every one of them must still be found, under
+/// its own id, and nothing else
+pub fn cases_m(rng: &mut Rng, count: usize, _tier: &str) -> Vec<Case> {
+    let mut out = vec![];
+    while out.len() < count {
+        let count = 65_536 + rng.range(1, 5_000) as u32;
+        let stride = rng.range(1, 140) as u32;
+        let first = rng.range(0, 3) as u32 + 1;
+        let w = world::World::Many { version: (2024, rng.range(1, 12) as u8, rng.range(1, 28) as u8), first, stride, count };
+        let probes: Vec<u32> = vec![10_000_002, 1 << 24, u32::MAX, first + 65_536 * stride + 10_000_000, (first + 65_535 * stride) | (1 << 31)];
+        let bl = w.build();
+        let pr = probes.clone();
+        let obs = world::on_onto(&bl, move |ont: &Ontology| obs_m(ont, &pr));
+        let input = V::T(vec![world::winput(&w, 0), ln(&probes)]);
+        out.push(Case { input, obs, tags: vec!["many_terms", "nt"] });
+    }
+    out
+}
+
 pub fn cases(rng: &mut Rng, count: usize, _tier: &str) -> Vec<Case> {
     let mut out = vec![];
     while out.len() < count {
